@@ -3,7 +3,7 @@
 # worktree /tmp/wt-<tag> (already built there): existing suite passes with the change; the demonstration fails with it and
 # passes without it.  Leaves the worktree clean (build output kept until the worktree is removed).
 tag="$1"; pkg="${2:-mimium-test}"; tname="${3:-$(echo $tag | tr 'A-Z' 'a-z')_demo}"
-src=/tmp/seeded/$tag; wt=/tmp/wt-$tag; export CARGO_TARGET_DIR=$wt/target
+src=/tmp/seeded/$tag; wt=${WT:-/tmp/wt-$tag}; export CARGO_TARGET_DIR=$wt/target
 mkdir -p /verif/logs/verify; log=/verif/logs/verify/$tag.log; : > $log
 cd $wt || exit 2
 git checkout -q -- . ; git clean -fdq -e target
